@@ -96,7 +96,11 @@ def documentedOrder : List (DirClass × DirClass) := [
   (clsLogging, clsRewriters), (clsLogging, clsWrappers), (clsLogging, clsAccess),
   (clsLogging, clsDecorators), (clsLogging, clsContent),
   (clsPrelude, clsLogging),
-  (clsDecorators, clsContent)
+  (clsDecorators, clsContent),
+  -- site settings (root, … and the parsing callbacks that follow root and tls) are complete before
+  -- any request-handling directive is set up
+  (clsSetup, clsLogging), (clsSetup, clsRewriters), (clsSetup, clsWrappers), (clsSetup, clsAccess),
+  (clsSetup, clsDecorators), (clsSetup, clsContent)
 ]
 
 /-! ### documented pair orders, probed on the running server (stream `c09.pairs`)
@@ -139,7 +143,10 @@ def scenarios : List Scenario := [
   ⟨"log-around-redir", "log", "redir", "1", "0"⟩,
   ⟨"log-around-errors", "log", "errors", "1", "0"⟩,
   ⟨"log-around-gzip", "log", "gzip", "1", "0"⟩,
-  ⟨"log-around-browse", "log", "browse", "1", "0"⟩
+  ⟨"log-around-browse", "log", "browse", "1", "0"⟩,
+  -- the parsing callback after `root` (hideCasketfile) has run before a later directive is set up:
+  -- `browse` copies the hidden-file list at setup, so its listing hides the Casketfile only then
+  ⟨"rootcallback-before-browse", "root", "browse", "1", "0"⟩
 ]
 
 /-- what the model predicts for a directive list `D`: decided by the two positions alone -/
@@ -149,5 +156,25 @@ def pairPrediction (D : List Dir) (s : Scenario) : String :=
 def pairVerdict (s : Scenario) (observed : String) : String :=
   if observed = s.documented then "ok"
   else "bad:documented-order:" ++ s.outer ++ " does not act before/around " ++ s.inner
+
+/-! ### setups and parsing callbacks, observed through a probe server type (stream `c09.callbacks`) -/
+
+/-- the schedule as observed: `s:<dir>` per setup call, `c:<dir>` per callback; it must be sorted
+by `rank` and contain exactly the registered callbacks of the directive list -/
+def adjSorted (D : List Dir) : List Event → Bool
+  | [] => true
+  | [_] => true
+  | a :: b :: rest => decide (rank D a ≤ rank D b) && adjSorted D (b :: rest)
+
+def cbCount (evs : List Event) (d : Dir) : Nat := (evs.filter fun e => e == Event.cb d).length
+
+def scheduleOk (D : List Dir) (cbs : Dir → Bool) (evs : List Event) : Bool :=
+  adjSorted D evs && D.all fun d => cbCount evs d == (if cbs d then 1 else 0)
+
+def scheduleVerdict (D : List Dir) (cbs : Dir → Bool) (evs evs' : List Event) : String :=
+  if evs ≠ evs' then "bad:schedule-differs:reordering the lines changed the sequence of setups and parsing callbacks"
+  else if !scheduleOk D cbs evs then
+    "bad:callback-position:a parsing callback did not run right after its directive's setups and before every later directive"
+  else "ok"
 
 end Casket.ExecSpec
